@@ -19,6 +19,7 @@ def check_trace(events, *, save_at, eps, clip, fmin, fmax, dt0, result_t, result
         if len(V) < 20:
             V.append((rule, msg, i))
 
+    underflowed = False
     accepted = {}  # uid -> time
     products = {}  # interpolation products usable as interp_from: uid -> time
     cur_k = 0
@@ -70,7 +71,7 @@ def check_trace(events, *, save_at, eps, clip, fmin, fmax, dt0, result_t, result
                     bad("R4", f"clipping on, but attempt from {e['from_t']} with dt={e['dt']} ends beyond checkpoint {t_next}", i)
             if abs(e["dt"] - expect) > _ulp(expect):
                 bad("R3", f"attempted dt={e['dt']} is not the {'clipped ' if clip else ''}proposal {expect}", i)
-            if not e["dt"] > 0:
+            if not e["dt"] > 0 and not underflowed:
                 bad("R3", f"non-positive step {e['dt']}", i)
             if last_rej is not None:
                 if e["from"] != last_rej[0]:
@@ -96,6 +97,7 @@ def check_trace(events, *, save_at, eps, clip, fmin, fmax, dt0, result_t, result
                 bad("R3", f"controller input dt={e['dt_in']} is not the attempted dt={pending['dt']}", i)
             if e["ep"] != pending_err["ep"]:
                 bad("R3", "controller saw a different error than the estimator returned", i)
+            underflowed = bool(e["dt_in"] <= 1e-290)  # the following proposal may have been flushed to zero
             ratio = e["dt_out"] / e["dt_in"] if e["dt_in"] > 0 else 1.0
             # below ~1e-300 products fall into the subnormal range, which XLA flushes to zero: not judged
             if e["dt_in"] > 1e-290 and not (fmin * (1 - 1e-14) <= ratio <= fmax * (1 + 1e-14)):
